@@ -6,7 +6,7 @@ from ..core import rule
 from ..index import AnalysisError, dotted, src, walk_no_nested, names_in
 from ..cfg import CFG, OTHER
 from ..consteval import run_function, Unfoldable
-from ..util import node_calls, own_expr, explore, mk_atoms, last_name
+from ..util import node_calls, own_expr, explore, mk_atoms, last_name, dict_emission
 from .slots import MOLECULE, SEQUTILS, FRAGMENT
 
 FN = 'Molecule.get_consensus'
@@ -255,14 +255,13 @@ def r4(ctx):
                        '(no re-ordering of one of the two), and the plain (non dove-safe) mode really is the default mode')
 def r5(ctx):
     g = ctx.fn(SEQUTILS, 'read_to_consensus_dict')
-    comps = [c for c in walk_no_nested(g) if isinstance(c, ast.DictComp)]
-    if len(comps) != 1:
-        raise AnalysisError('read_to_consensus_dict: the per-position dictionary comprehension was not found')
-    c = comps[0]
+    em = dict_emission(g)
+    if em is None:
+        raise AnalysisError('read_to_consensus_dict: the per-position emission (dict comprehension or loop filling one dictionary) was not found')
     rd = g.args.args[0].arg
-    gen = c.generators[0]
-    qpos = gen.target.elts[0].id if isinstance(gen.target, ast.Tuple) and isinstance(gen.target.elts[0], ast.Name) else None
-    pairs_ok = isinstance(gen.iter, ast.Call) and src(gen.iter.func) == f'{rd}.get_aligned_pairs'
+    c = em['node']
+    qpos = em['target'].elts[0].id if isinstance(em['target'], ast.Tuple) and isinstance(em['target'].elts[0], ast.Name) else None
+    pairs_ok = isinstance(em['iter'], ast.Call) and src(em['iter'].func) == f'{rd}.get_aligned_pairs'
     defs = {}
     for s_ in walk_no_nested(g):
         if isinstance(s_, ast.Assign) and len(s_.targets) == 1 and isinstance(s_.targets[0], ast.Name):
@@ -279,11 +278,11 @@ def r5(ctx):
         return srcs, src(e.slice)
     ok = False
     detail = 'value is not a (base, quality, ...) tuple'
-    if isinstance(c.value, ast.Tuple) and len(c.value.elts) >= 2:
-        bs, bi = source_of(c.value.elts[0])
-        qs, qi = source_of(c.value.elts[1])
+    if isinstance(em['value'], ast.Tuple) and len(em['value'].elts) >= 2:
+        bs, bi = source_of(em['value'].elts[0])
+        qs, qi = source_of(em['value'].elts[1])
         ok = pairs_ok and qpos is not None and bs == {f'{rd}.query_sequence'} and qs == {f'{rd}.query_qualities'} and bi == qpos and qi == qpos
-        detail = f'base <- {sorted(bs) if bs else None}[{bi}], quality <- {sorted(qs) if qs else None}[{qi}] with {qpos} from {src(gen.iter)[:50]}'
+        detail = f'base <- {sorted(bs) if bs else None}[{bi}], quality <- {sorted(qs) if qs else None}[{qi}] with {qpos} from {src(em["iter"])[:50]}'
     ctx.emit('C13-R5', ok, SEQUTILS, c, 'read_to_consensus_dict: ' + detail + ('' if ok else ' - base and quality are not both the stored arrays of the read at the aligned query position'),
              key='base-and-quality-same-position', what='read_to_consensus_dict: base and quality of a call come from different query positions')
     # the default mode: with dove_safe False no window is applied and single-end fragments are not refused
